@@ -22,7 +22,7 @@ import sys
 
 from . import hier as H
 from . import spec as S
-from .outcome import HarnessExc, capture
+from .outcome import HarnessExc, HarnessTypeError, capture
 
 _counter = itertools.count()
 
@@ -152,7 +152,8 @@ class Harness:
         return r
 
     def exc(self, mid):
-        e = HarnessExc(f"raised by m{mid}")
+        # every second exception a body raises is a TypeError (which the library catches for its own purposes)
+        e = (HarnessTypeError if len(self.raised) % 2 == 0 else HarnessExc)(f"raised by m{mid}")
         self.raised.append(e)
         return e
 
